@@ -543,6 +543,42 @@ class Intervals:
                 out[kk[2][n:]] = vv
         return out
 
+    def _len_subtree_of_place(self, st, sp):
+        """{relative path: length interval} of tracked sequence lengths at or below a place (fields only)."""
+        base = []
+        for e in sp.get("p", []):
+            if e["k"] == "field":
+                base.append("." + str(e.get("n", e["i"])))
+            elif e["k"] == "downcast":
+                base.append("@" + str(e.get("v", e["i"])))
+            else:
+                return {}
+        base = tuple(base)
+        out = {}
+        n = len(base)
+        for kk, vv in st.v.items():
+            if kk[0] == "len" and kk[1][0] == sp["l"] and kk[1][1][:n] == base:
+                out[kk[1][1][n:]] = vv
+        return out
+
+    def _len_subtree_of_rv(self, st, rv):
+        k = rv["k"]
+        if k == "use":
+            sp = op_place(rv["op"])
+            return self._len_subtree_of_place(st, sp) if sp is not None else {}
+        if k == "aggregate" and rv.get("agg") in ("tuple", "adt") and not rv.get("is_enum"):
+            out = {}
+            names = rv.get("fields") if rv.get("agg") == "adt" else None
+            for i, o in enumerate(rv["ops"]):
+                sp = op_place(o)
+                if sp is None:
+                    continue
+                pre = ("." + (names[i] if names and i < len(names) else str(i)),)
+                for q, vv in self._len_subtree_of_place(st, sp).items():
+                    out[pre + q] = vv
+            return out
+        return {}
+
     def _subtree_of_rv(self, st, rv):
         k = rv["k"]
         if k == "use":
@@ -659,6 +695,7 @@ class Intervals:
                 if lk is not None:
                     lenv = lk
         sub_lp = self._subtree_of_rv(st, rv)
+        sub_len = self._len_subtree_of_rv(st, rv)
         newvar = None
         if k == "aggregate" and rv.get("agg") == "adt" and rv.get("is_enum"):
             newvar = str(rv.get("variant"))
@@ -672,6 +709,8 @@ class Intervals:
         for q, vv in sub_lp.items():
             if q:
                 st.set(("lp", l, q), vv)
+        for q, vv in sub_len.items():
+            st.set(("len", (l, q)), vv)
         if itv is not None:
             st.set(("l", l), itv)
         if alias is not None:
@@ -925,6 +964,12 @@ class Intervals:
             n = arg_itv(1)
             if kk is not None and n is not None:
                 post_len = (kk, (max(0, n[0]), min(LEN_MAX, n[1])))
+        elif ends("vec::Vec::truncate", "smallvec::SmallVec::truncate") and len(args) == 2:
+            kk = key_of(body, op_place(args[0])) if op_place(args[0]) else None
+            n = arg_itv(1)
+            if kk is not None and n is not None:
+                cur = self.len_itv(st, args[0])
+                post_len = (kk, (min(cur[0], n[0]) if cur else 0, min(cur[1] if cur else LEN_MAX, n[1])))
         elif ends("util::MsgBuffer::clear") and len(args) == 1:
             kk = key_of(body, op_place(args[0])) if op_place(args[0]) else None
             if kk is not None:
